@@ -262,6 +262,7 @@ func (box *Ballotbox) LastVoteproof() base.Voteproof {
 
 func (box *Ballotbox) newVoteproof(vp base.Voteproof) {
 	_, _ = box.lvp.Set(func(base.Voteproof, bool) (base.Voteproof, error) {
+		verifBoxVoteproof(box, vp)
 		box.vpch <- vp
 
 		return vp, nil
